@@ -12,3 +12,22 @@ claim("C18", E1,
 
 for _p in ["C01", "C02", "C03", "C04", "C05", "C06", "C07", "C08", "C09", "C10", "C11", "C12", "C13", "C14", "C15", "C16", "C17", "C19", "C20"]:
     NOT_APPLICABLE[_p] = "check not built yet in this round (planned in DESIGN.md §3); not claimed until its harness lands"
+
+claim("C07", E1,
+      "Bounded symbolic check of compute_gae (T<=6), discounted_n_step_return (H<=5), discounted_reward_to_go (n<=7), prepare_a2c_batch "
+      "(T<=4 x N<=3, real value MLP with symbolic parameters) and PPO's rollout layout fed to update_ppo's GAE: recurrences are SMT "
+      "equalities against the reference recurrence for all real rewards/values/gamma/lambda and all 0/1 flag patterns; causality and "
+      "cross-environment independence are two-copy (self-composition) queries.",
+      REAL + " MR.Q critic target / encoder loss causality is checked under C03.",
+      "jaxpr -> SMT; recurrence equalities + two-copy non-interference queries (unsat = holds for all values within the shape bound)",
+      "DESIGN.md §3 C07")
+NOT_APPLICABLE.pop("C07", None)
+
+claim("C14", E1,
+      "Bounded symbolic check of the jitted tabular updates (SARSA, Q-learning composed with its greedy successor action, double "
+      "Q-learning, Dyna-Q's q_learning_update, Monte-Carlo update with episodes <= 3) on tables 3x2 / 2x3 / 4x2 with symbolic entries "
+      "and symbolic in-range indices: every table entry of the result equals the textbook expression (ite over the visited entry).",
+      REAL + " Dyna-Q's learned model (empirical frequencies) is not yet covered by this check.",
+      "jaxpr -> SMT with symbolic gather/scatter indices as ite chains; per-entry equality obligations",
+      "DESIGN.md §3 C14")
+NOT_APPLICABLE.pop("C14", None)
